@@ -23,11 +23,15 @@ R2 `LoopOutputStep.run`: the expected count of an instance is `int(<last compone
 R3 observation only: `all(self.termination_map)` iterates the keys (dead decision, see DESIGN section 7).
 R4 `LoopCombinator._product`: the first combination of an instance creates the counter with 0 under
    the instance's full tag and gets suffix `.0`; later ones increment `iteration_map[prefix]` by one
-   *before* using it as the last component.  `LoopCombinatorStep.run` stops re-arming a port exactly
+   *before* using it as the last component.  The first/later decision is read as a branch fact (the edge on which
+   `<prefix> in self.iteration_map` is false, however the test is spelled and whichever branch comes first); a test that
+   does not decide on that membership alone is reported.  `LoopCombinatorStep.run` stops re-arming a port exactly
    when it is terminated *and* its iteration checklist is empty (truth table); both atoms of that guard must be
    keyed by the completed task's own name, i.e. the `<task>.get_name()` value under which `terminated` is filled
    (through local aliases / a temporary holding the checklist entry) -- another key (a stale loop variable such as
-   `port_name`, the step name, another task) is reported as a violation naming the guard, not refused.  It adds a
+   `port_name`, the step name, another task) or no key at all (the list `terminated` tested as a whole: bare truth
+   value, bool()/any()/len() of it, any other expression over it = "some port has terminated") is reported as a
+   violation naming the guard, not refused.  It adds a
    started iteration to the checklist and removes it on its IterationTerminationToken.  `LoopTerminationCombinator._product`
    emits one IterationTerminationToken, tagged by get_tag of the combination, per output item.
 
@@ -44,6 +48,7 @@ from __future__ import annotations
 import ast
 
 from ..cfg import NORMAL
+from ..facts import atoms, key as fact_key
 from ..model import dotted, unparse
 from ..selftest import V
 from ._util_A import (
@@ -608,6 +613,21 @@ def r4(ctx):
     _loop_termination(ctx)
 
 
+def _membership_decider(test):
+    """A test that decides exactly `K in self.iteration_map`, however it is spelled (`K not in M`, `not K in M`,
+    `not (K not in M)`, ...): (canonical atom `K in M`, edge 't' / 'f' on which it holds) | None.  Both edges must imply
+    the atom (with opposite truth), so a compound test that enters a branch for another reason too is not accepted."""
+    on_t, on_f = atoms(test, True), atoms(test, False)
+    if len(on_t) != 1 or len(on_f) != 1:
+        return None
+    (a, va), (b, vb) = on_t[0], on_f[0]
+    if not (isinstance(a, ast.Compare) and len(a.ops) == 1 and isinstance(a.ops[0], ast.In) and dotted(a.comparators[0]) == "self.iteration_map"):
+        return None
+    if va == vb or fact_key(a) != fact_key(b):
+        return None
+    return a, ("t" if va else "f")
+
+
 def _loop_combinator(ctx):
     p = ctx.prog
     f = p.func(f"{COMB}.LoopCombinator._product")
@@ -626,9 +646,19 @@ def _loop_combinator(ctx):
     # the membership test on iteration_map
     # (branch facts: the test may be spelled `K not in M` / `not K in M` / `not (K not in M)` with the branches in
     # either order; what matters is the edge on which `K in self.iteration_map` is known to be false = first combination)
-    tests = [(t, m) for t in g.nodes.values() if t.kind == "test" and t.ast is not None for m in [_membership_decider(t.ast)] if m is not None]
+    tests = [t for t in g.nodes.values() if t.kind == "test" and t.ast is not None
+             and any(isinstance(x, ast.Compare) and len(x.ops) == 1 and isinstance(x.ops[0], (ast.In, ast.NotIn)) and dotted(x.comparators[0]) == "self.iteration_map"
+                     for x in ast.walk(t.ast))]
     ctx.require(len(tests) == 1, f"C06.R4: LoopCombinator._product: membership test on self.iteration_map not found exactly once ({len(tests)})")
-    t, (member, later_edge) = tests[0]
+    t = tests[0]
+    decided = _membership_decider(t.ast)
+    if decided is None:
+        # the anchor is there, but the branch is not decided by the membership alone (`K not in M and <other>`): a
+        # combination of a known instance can take the first-combination branch or vice versa
+        ctx.ob("R4", "LoopCombinator._product: first/later iteration is decided on the tag prefix", False, func=f, node=t.ast, instance="product:test",
+               message=f"the test `{unparse(t.ast)}` does not decide first / later combination by membership in iteration_map alone")
+        return
+    member, later_edge = decided
     first_edge = "f" if later_edge == "t" else "t"
     # base tag: the name whose definition is get_tag(...)
     base = None
@@ -693,6 +723,28 @@ def _counter_reads(f, e, nid, depth: int = 4):
             if len(ds) == 1 and ds[0].kind in ("assign", "walrus") and ds[0].index is None and ds[0].nid != nid:
                 out.extend(_counter_reads(f, ds[0].value, ds[0].nid, depth - 1))
     return out
+
+
+def _whole_list_atom(f, e, lists):
+    """An atom that tests a list of `lists` for (non-)emptiness as a whole: bare `T`, `bool(T)` / `any(T)` (the
+    elements are non-empty task names), `len(T) > 0` / `len(T) == 0` / ...: (T, True when the atom holds for a
+    non-empty list) | None."""
+    def is_list(x):
+        return isinstance(x, ast.Name) and x.id in lists
+
+    if is_list(e):
+        return e.id, True
+    for fn in ("bool", "any"):
+        c = builtin_call(f, e, fn)
+        if c is not None and len(c.args) == 1 and not c.keywords and is_list(c.args[0]):
+            return c.args[0].id, True
+    ln = builtin_call(f, e, "len")
+    if ln is not None and len(ln.args) == 1 and is_list(ln.args[0]):
+        return ln.args[0].id, True
+    em = emptiness_atom(e)
+    if em is not None and is_list(em[0]):
+        return em[0].id, not em[1]
+    return None
 
 
 def _loop_combinator_step(ctx):
@@ -760,6 +812,16 @@ def _loop_combinator_step(ctx):
                     and e.comparators[0].id in terminated_lists:
                 own_key(e.left, f"membership in `{e.comparators[0].id}`")
                 return ("terminated", isinstance(e.ops[0], ast.In))
+            # the list of terminated ports read as a whole (`terminated`, `bool(terminated)`, `len(terminated) > 0`, ...):
+            # "some port has terminated", not "the completed task's port has terminated".  The atom is tabulated with the
+            # polarity of its spelling and the missing key is reported as a violation of the guard (not refused).
+            whole = _whole_list_atom(f, e, terminated_lists)
+            if whole is not None:
+                nm, pol = whole
+                msg = f"`{unparse(e)}` tests whether *some* port has terminated (the list `{nm}` as a whole, no membership test)"
+                if msg not in wrong_keys:
+                    wrong_keys.append(msg)
+                return ("terminated", pol)
             em = emptiness_atom(e)
             if em is not None:
                 x, pol = em
@@ -772,14 +834,27 @@ def _loop_combinator_step(ctx):
             if isinstance(x, ast.Subscript) and dotted(x.value) == CHK and not isinstance(x.slice, ast.Slice):
                 own_key(x.slice, "the iteration checklist", xn)
                 return ("empty", False)  # truthy = non-empty
+            if any(isinstance(n, ast.Name) and n.id in terminated_lists for n in ast.walk(e)):
+                # any other reading of the terminated ports (count, comparison with another collection, ...): the guard no
+                # longer asks whether *this* port has terminated; opaque atom, reported below
+                msg = f"`{unparse(e)}` reads the terminated ports otherwise than by membership of the completed task's name"
+                if msg not in wrong_keys:
+                    wrong_keys.append(msg)
+                return ("?" + unparse(e), True)
             return None
 
         folded = fold_bool(t.ast, atom)
         ctx.require(folded is not None, f"C06.R4: LoopCombinatorStep.run: re-arm guard `{unparse(t.ast)}` has atoms that are not understood")
         ctx.ob("R4", "LoopCombinatorStep.run: the re-arm guard looks the completed task up under its own name", not wrong_keys, func=f, node=t.ast, instance="lcs:rearm:key",
-               message=f"re-arm guard `{unparse(t.ast)}`: " + "; ".join(wrong_keys) + f", not by the completed task's own name `{unparse(fill_keys[0]) if fill_keys else '<task>.get_name()'}` "
+               message=f"re-arm guard `{unparse(t.ast)}`: " + "; ".join(wrong_keys) + f" -- expected a lookup under the completed task's own name `{unparse(fill_keys[0]) if fill_keys else '<task>.get_name()'}` "
                "(the key under which terminated ports are recorded): a terminated port is re-armed for ever / a live port is dropped")
         names, table = folded
+        opaque = [n[1:] for n in names if n.startswith("?")]
+        if opaque:
+            ctx.ob("R4", "LoopCombinatorStep.run stops re-arming a port exactly when it is terminated and its iteration checklist is empty", False, func=f, node=t.ast,
+                   instance="lcs:rearm:guard", message=f"re-arm guard `{unparse(t.ast)}` depends on " + ", ".join(f"`{o}`" for o in opaque)
+                   + ", which is neither 'this port has terminated' nor 'its iteration checklist is empty'")
+            continue
         bad = []
         for term in (False, True):
             for empty in (False, True):
@@ -917,6 +992,17 @@ VARIANTS = [
     V("LoopCombinatorStep: guard tests the step name (De Morgan form)", SFILE, _LR,
       "if not (task_name in terminated and len(self.iteration_termination_checklist[task_name]) == 0):",
       "if self.name not in terminated or len(self.iteration_termination_checklist[task_name]) > 0:", "R4"),
+    V("LoopCombinatorStep: guard tests the terminated list as a whole (seeded change C06-2)", SFILE, _LR,
+      "if not (task_name in terminated and len(self.iteration_termination_checklist[task_name]) == 0):",
+      "if not (terminated and len(self.iteration_termination_checklist[task_name]) == 0):", "R4"),
+    V("LoopCombinatorStep: guard tests len(terminated) > 0 (De Morgan form)", SFILE, _LR,
+      "if not (task_name in terminated and len(self.iteration_termination_checklist[task_name]) == 0):",
+      "if len(terminated) == 0 or len(self.iteration_termination_checklist[task_name]) > 0:", "R4"),
+    V("LoopCombinatorStep: guard waits for every port to terminate", SFILE, _LR,
+      "if not (task_name in terminated and len(self.iteration_termination_checklist[task_name]) == 0):",
+      "if not (len(terminated) == len(self.input_ports) and len(self.iteration_termination_checklist[task_name]) == 0):", "R4"),
+    V("_product: first/later branches swapped (negated spelling)", CFILE, _LP, "if prefix not in self.iteration_map:", "if not prefix not in self.iteration_map:", "R4"),
+    V("_product: later branch also entered for another reason", CFILE, _LP, "if prefix not in self.iteration_map:", "if prefix not in self.iteration_map and len(schema) > 1:", "R4"),
     V("LoopCombinatorStep: started iterations not recorded", SFILE, _LR, "self.iteration_termination_checklist[task_name].add(token.tag)", "pass", "R4"),
     V("LoopTerminationCombinator: one token per input item", CFILE, _LT, "for k in self.output_items}", "for k in schema}", "R4"),
     V("LoopTerminationCombinator: root tag", CFILE, _LT, "IterationTerminationToken(tag=tag)", "IterationTerminationToken(tag='0')", "R4"),
@@ -932,6 +1018,16 @@ VARIANTS = [
     V("benign: _product f-string tags and reordered independent statements", CFILE, _LP,
       "            self.iteration_map[tag] = 0\n            tag = '.'.join(tag.split('.') + ['0'])",
       "            new_tag = f'{tag}.0'\n            self.iteration_map[tag] = 0\n            tag = new_tag", None),
+    V("benign: _product if/else swapped with a negated test (mechanical ifswap)", CFILE, _LP,
+      "        if prefix not in self.iteration_map:\n            self.iteration_map[tag] = 0\n            tag = '.'.join(tag.split('.') + ['0'])\n        else:\n"
+      "            self.iteration_map[prefix] += 1\n            tag = '.'.join(tag.split('.')[:-1] + [str(self.iteration_map[prefix])])",
+      "        if not prefix not in self.iteration_map:\n            self.iteration_map[prefix] += 1\n            tag = '.'.join(tag.split('.')[:-1] + [str(self.iteration_map[prefix])])\n        else:\n"
+      "            self.iteration_map[tag] = 0\n            tag = '.'.join(tag.split('.') + ['0'])", None),
+    V("benign: _product later-first order with a positive membership test", CFILE, _LP,
+      "        if prefix not in self.iteration_map:\n            self.iteration_map[tag] = 0\n            tag = '.'.join(tag.split('.') + ['0'])\n        else:\n"
+      "            self.iteration_map[prefix] += 1\n            tag = '.'.join(tag.split('.')[:-1] + [str(self.iteration_map[prefix])])",
+      "        if prefix in self.iteration_map:\n            self.iteration_map[prefix] += 1\n            tag = '.'.join(tag.split('.')[:-1] + [str(self.iteration_map[prefix])])\n        else:\n"
+      "            self.iteration_map[tag] = 0\n            tag = '.'.join(tag.split('.') + ['0'])", None),
     V("benign: _product counter through a temporary", CFILE, _LP,
       "            self.iteration_map[prefix] += 1\n            tag = '.'.join(tag.split('.')[:-1] + [str(self.iteration_map[prefix])])",
       "            self.iteration_map[prefix] += 1\n            n = self.iteration_map[prefix]\n            tag = prefix + '.' + str(n)", None),
